@@ -224,9 +224,92 @@ func selfTest(c *hx.Ctx) {
 	if ep > en {
 		fail("pruning explored more executions (%d) than the unpruned search (%d)", ep, en)
 	}
+	// 7. channel model
+	ping := func(st *selfState) {
+		ch := make(chan int)
+		vsched.Go(func() { vsched.ChanSend(ch, 1); vsched.ChanSend(ch, 2); vsched.ChanClose(ch) })
+		for {
+			v, ok := vsched.ChanRecv2(ch)
+			if !ok {
+				break
+			}
+			st.out = append(st.out, fmt.Sprint(v))
+		}
+	}
+	o, v, _, _ = selfExplore("chan-ping", ping, 2, false, true, false)
+	if keys(o) != "0 0 [1 2]" || len(v) != 0 {
+		fail("unbuffered channel ping: outcomes %q verdicts %q, want [1 2] and no verdict", keys(o), keys(v))
+	}
+	noSender := func(st *selfState) {
+		ch := make(chan int)
+		vsched.Go(func() {})
+		vsched.ChanRecv(ch)
+	}
+	_, v, _, _ = selfExplore("chan-nosender", noSender, 0, false, true, false)
+	if keys(v) != "deadlock" {
+		fail("receive without a sender: verdicts %q, want deadlock", keys(v))
+	}
+	full := func(st *selfState) {
+		ch := make(chan int, 1)
+		vsched.ChanSend(ch, 1)
+		st.x = vsched.ChanLen(ch)
+		vsched.ChanSend(ch, 2)
+	}
+	_, v, _, _ = selfExplore("chan-full", full, 0, false, true, false)
+	if keys(v) != "deadlock" {
+		fail("second send into a full buffered channel: verdicts %q, want deadlock", keys(v))
+	}
+	sel := func(st *selfState) {
+		a, b := make(chan int, 1), make(chan int, 1)
+		vsched.ChanSend(a, 1)
+		vsched.ChanSend(b, 2)
+		r := vsched.Select(false, vsched.RecvCase(a), vsched.RecvCase(b))
+		va, _ := vsched.SelVal(r, a)
+		st.x = r.Index*10 + va
+		r2 := vsched.Select(true, vsched.RecvCase(make(chan int)))
+		st.y = r2.Index
+	}
+	o, v, _, _ = selfExplore("chan-select", sel, 1, false, true, false)
+	if keys(o) != "1 -1 [] | 12 -1 []" || len(v) != 0 {
+		fail("select among two ready cases / default: outcomes %q verdicts %q", keys(o), keys(v))
+	}
+	// lost wake-up: the waker signals only on the empty -> non-empty transition of a counter
+	lostWake := func(st *selfState) {
+		sig := make(chan struct{}, 1)
+		put := func() {
+			st.mu.Lock()
+			was := st.x == 0
+			st.x++
+			st.mu.Unlock()
+			if was {
+				vsched.Select(true, vsched.SendCase(sig, struct{}{}))
+			}
+		}
+		take := func() {
+			for {
+				st.mu.Lock()
+				if st.x > 0 {
+					st.x--
+					st.mu.Unlock()
+					return
+				}
+				st.mu.Unlock()
+				vsched.ChanRecv(sig)
+			}
+		}
+		vsched.Go(take)
+		vsched.Go(take)
+		vsched.Go(put)
+		vsched.Go(put)
+		vsched.WaitOthersDone()
+	}
+	_, v, _, _ = selfExplore("chan-lost-wakeup", lostWake, 3, true, true, false)
+	if !v["deadlock"] {
+		fail("lost wake-up pattern: verdicts %q, want a deadlock in some schedule", keys(v))
+	}
 	c.Res.Execs += ep + en
-	c.Res.AddExtra("cases", 14)
-	c.Res.Sample("14 known-answer scenarios: lost update (bounds 0/1, delay 1), locked update, AB-BA deadlock, WaitGroup negative / stuck, fair spin loop, endless spin loop, race monitor positive / negative, pruning vs no pruning")
+	c.Res.AddExtra("cases", 19)
+	c.Res.Sample("19 known-answer scenarios: channel ping / no sender / full buffer / select / lost wake-up, lost update (bounds 0/1, delay 1), locked update, AB-BA deadlock, WaitGroup negative / stuck, fair spin loop, endless spin loop, race monitor positive / negative, pruning vs no pruning")
 }
 
 func init() {
